@@ -86,7 +86,7 @@ func TestVerif_C01_h3seq(t *testing.T) {
 			}
 			var buf bytes.Buffer
 			var err error
-			if txt, p := verifh.Safely(func() { err = w.writeHeaders(&buf, req, false, nil) }); p {
+			if txt, p := verifh.Safely(func() { err = verifH3WriteRequestHeader(w, &buf, req, false, nil) }); p {
 				s.Crash(fmt.Sprintf("h3seq-%d", i), fmt.Sprint(hdr), txt, "")
 				ok, why = false, "panic"
 				break
